@@ -13,10 +13,11 @@ Arguments Ok {A} a. Arguments Err {A} e. Arguments Panic {A}.
 
 Record router := mkRouter {
   g_redirect : bool; g_ignore : bool; g_clientip : resolver;
-  g_noMethod : bool; g_autoOptions : bool; g_mws : nat (* len(router.mws) *) }.
+  g_noMethod : bool; g_autoOptions : bool; g_mws : nat (* len(router.mws) *);
+  g_maxParams : N }.
 
 (* new(Router) + the defaults set at fox.go:142-147 *)
-Definition router0 : router := mkRouter false false RNone false false 0.
+Definition router0 : router := mkRouter false false RNone false false 0 65535%N.       (* r.maxParams = math.MaxUint16 *)
 
 (* for i := range m { if m[i] == nil { return ErrInvalidConfig }; mws = append(mws, ...) } *)
 Fixpoint add_mws (n : nat) (ms : list bool) : option nat :=
@@ -30,22 +31,23 @@ Fixpoint add_mws (n : nat) (ms : list bool) : option nat :=
 Definition apply_glob (r : router) (o : gopt) : option router :=
   match o with
   | GRedirectTS b =>
-      Some (mkRouter b (if b then false else g_ignore r) (g_clientip r) (g_noMethod r) (g_autoOptions r) (g_mws r))
+      Some (mkRouter b (if b then false else g_ignore r) (g_clientip r) (g_noMethod r) (g_autoOptions r) (g_mws r) (g_maxParams r))
   | GIgnoreTS b =>
-      Some (mkRouter (if b then false else g_redirect r) b (g_clientip r) (g_noMethod r) (g_autoOptions r) (g_mws r))
+      Some (mkRouter (if b then false else g_redirect r) b (g_clientip r) (g_noMethod r) (g_autoOptions r) (g_mws r) (g_maxParams r))
   | GClientIP None => Some r                                            (* if s.router != nil && resolver != nil *)
   | GClientIP (Some i) =>
-      Some (mkRouter (g_redirect r) (g_ignore r) (RSome i) (g_noMethod r) (g_autoOptions r) (g_mws r))
-  | GMw ms | GMwFor ms =>
-      option_map (fun n => mkRouter (g_redirect r) (g_ignore r) (g_clientip r) (g_noMethod r) (g_autoOptions r) n) (add_mws (g_mws r) ms)
+      Some (mkRouter (g_redirect r) (g_ignore r) (RSome i) (g_noMethod r) (g_autoOptions r) (g_mws r) (g_maxParams r))
+  | GMw ms | GMwFor _ ms =>                                             (* the nil check does not look at the scope *)
+      option_map (fun n => mkRouter (g_redirect r) (g_ignore r) (g_clientip r) (g_noMethod r) (g_autoOptions r) n (g_maxParams r)) (add_mws (g_mws r) ms)
   | GNoRouteH nn => if nn then Some r else None
   | GNoMethodH nn =>
-      if nn then Some (mkRouter (g_redirect r) (g_ignore r) (g_clientip r) true (g_autoOptions r) (g_mws r)) else None
+      if nn then Some (mkRouter (g_redirect r) (g_ignore r) (g_clientip r) true (g_autoOptions r) (g_mws r) (g_maxParams r)) else None
   | GOptionsH nn =>
-      if nn then Some (mkRouter (g_redirect r) (g_ignore r) (g_clientip r) (g_noMethod r) true (g_mws r)) else None
-  | GNoMethod b => Some (mkRouter (g_redirect r) (g_ignore r) (g_clientip r) b (g_autoOptions r) (g_mws r))
-  | GAutoOptions b => Some (mkRouter (g_redirect r) (g_ignore r) (g_clientip r) (g_noMethod r) b (g_mws r))
-  | GDefault => Some (mkRouter (g_redirect r) (g_ignore r) (g_clientip r) (g_noMethod r) true (2 + g_mws r))
+      if nn then Some (mkRouter (g_redirect r) (g_ignore r) (g_clientip r) (g_noMethod r) true (g_mws r) (g_maxParams r)) else None
+  | GNoMethod b => Some (mkRouter (g_redirect r) (g_ignore r) (g_clientip r) b (g_autoOptions r) (g_mws r) (g_maxParams r))
+  | GAutoOptions b => Some (mkRouter (g_redirect r) (g_ignore r) (g_clientip r) (g_noMethod r) b (g_mws r) (g_maxParams r))
+  | GDefault => Some (mkRouter (g_redirect r) (g_ignore r) (g_clientip r) (g_noMethod r) true (2 + g_mws r) (g_maxParams r))
+  | GMaxParams n => Some (mkRouter (g_redirect r) (g_ignore r) (g_clientip r) (g_noMethod r) (g_autoOptions r) (g_mws r) n)
   end.
 
 (* fox.New: for _, opt := range opts { if err := opt.applyGlob(...); err != nil { return nil, err } } *)
@@ -119,6 +121,9 @@ Definition new_route (r : router) (pattern : bytes) (handler : bool) (opts : lis
   match parse_lite pattern with
   | None => Err ErrInvalidRoute
   | Some (n, endHost) =>
+      (* parseRoute: if paramCnt > uint32(fox.maxParams) -> ErrInvalidRoute (ErrTooManyParams); checked on the running
+         count in the code, which only grows, so on the final count here (same error class either way) *)
+      if N.ltb (g_maxParams r) (N.of_nat n) then Err ErrInvalidRoute else
       let rte := mkRoute pattern endHost n (g_redirect r) (g_ignore r) (g_clientip r) [] (g_mws r) handler in
       match apply_ropts rte opts with
       | None => Err ErrInvalidConfig
@@ -178,6 +183,12 @@ Definition create (r : router) (pats : list bytes) (t : table) (v : via) (key : 
                | _, None => ((key, rt) :: t, match snapshot_of rt with Ok s => ObsErr None (Some s) | _ => ObsPanic end)
                end
            end
+  | VOnly =>
+      match new_route r p handler opts with
+      | Err e => (t, ObsErr (Some e) None)
+      | Panic => (t, ObsPanic)
+      | Ok rt => (t, match snapshot_of rt with Ok s => ObsErr None (Some s) | _ => ObsPanic end)
+      end
   | VNewRoute =>
       match new_route r p handler opts with
       | Err e => (t, ObsErr (Some e) None)
